@@ -6,6 +6,8 @@ HARNESSES = {
     'ring_coarse': {'src': ['harness/ring_coarse.cc'], 'flavours': {}, 'rt': []},
     'map_iter': {'src': ['harness/map_iter.cc'], 'flavours': {}, 'rt': []},
     'ipc_sim': {'src': ['harness/ipc_sim.cc'], 'flavours': {}, 'rt': []},
+    'ipc_sim_acc': {'src': ['harness/ipc_sim.cc'], 'flavours': {'ringbuffer.c': 'acc'}, 'rt': ['rt_sancov.o'],
+                    'cxxflags': ['-DIPC_ACC=1', '-DHARNESS_NAME="ipc_sim_acc"']},
     'loop_sim': {'src': ['harness/loop_sim.cc'], 'flavours': {}, 'rt': []},
     'blackbox': {'src': ['harness/blackbox.cc'], 'flavours': {}, 'rt': []},
     'ring_conc_t': {'src': ['harness/ring_conc.cc'], 'flavours': {'ringbuffer.c': 'tsan', 'ringbuffer_helper.c': 'tsan'},
@@ -291,7 +293,8 @@ PROPS['C03'] = _ipc('no hostile party; a second part enumerates, for five fixed 
     design_ref='DESIGN.md 4/C03',
     level_thorough='fault_enumeration',
     assumptions=['a dead process only loses its descriptors; shared memory it wrote stays as it was'])
-PROPS['C03']['parts'] = [{'harness': 'ipc_sim', 'chunk': 40, 'share': 1.0},
+PROPS['C02']['parts'] = [{'harness': 'ipc_sim', 'chunk': 40, 'share': 2.0}, {'harness': 'ipc_sim_acc', 'chunk': 20, 'share': 1.0}]
+PROPS['C03']['parts'] = [{'harness': 'ipc_sim', 'chunk': 40, 'share': 1.0}, {'harness': 'ipc_sim_acc', 'chunk': 20, 'share': 0.7},
                          {'harness': 'ipc_sim', 'name': 'ipc_enum', 'prop_arg': 'C03E', 'chunk': 64, 'share': 1.0,
                           'enum_space': 19200, 'quick_stride': True}]
 PROPS['C04'] = _ipc('no hostile party', 'at least one connection was announced and the baton changed hands more than four times',
@@ -345,8 +348,9 @@ PROPS['C16'] = {
                   'compiler merges are not separate points; routing (which targets a call site selects) is read from the documented '
                   'cs->targets bitmap at the time of the call and not judged here (that is C12); a queued record overtaken by a '
                   'disable / close / CONF_THREADED off / filter removal of its target is accepted delivered or not; order is judged per '
-                  'producer and per path (worker / synchronous); pthread_setschedparam never fails in the simulation, so the '
-                  'failed-start clean-up path of qb_log_thread_start is not reached; allocation failure is not injected',
+                  'producer and per path (worker / synchronous); pthread_setschedparam on the logging thread fails only for an '
+                  'out-of-range priority (EINVAL, which drives the failed-start clean-up of qb_log_thread_start), never with EPERM; '
+                  'allocation failure is not injected',
     'technique': 'deterministic simulation: seeded scheduler over real threads with one baton (the logging thread is the one libqb creates, '
                  'adopted through the pthread_create seam), preemption at every instrumented access of log_thread.c and every '
                  'lock/semaphore call, stall strategy aimed at the worker, EINTR fault injection, delivery reference model, captured '
@@ -354,7 +358,7 @@ PROPS['C16'] = {
     'design_ref': 'DESIGN.md 4/C16',
     'real': ['lib/log_thread.c', 'lib/log.c', 'lib/log_format.c', 'lib/log_dcs.c', 'lib/array.c', 'lib/util.c (qb_thread_lock)', 'glibc vsnprintf/stdio, ASan allocator'],
     'stub': ['POSIX semaphores, spin lock and rwlock waiting (state kept by the shim)', 'pthread_create / pthread_join (simulator tasks)',
-             'pthread_setschedparam (always succeeds)', 'thread scheduling', 'clock', 'syslog target (disabled right after qb_log_init)'],
+             'pthread_setschedparam (priority range check only)', 'thread scheduling', 'clock', 'syslog target (disabled right after qb_log_init)'],
     'assumptions': ['sequentially consistent interleavings',
                     'control calls come from one application thread; other threads only log, and only while every target in use is threaded (qblog.h)',
                     'logger callbacks do not log themselves', 'malloc does not fail'],
